@@ -15,7 +15,7 @@
    the trait recurses through arrays / cv), not over the finite zoo the compile-time tie samples. *)
 From Coq Require Import NArith.
 From Tetl Require Import Lib.Base C15.Types C15.Model C15.ModelNum C15.Spec C15.SpecNum C15.ProofsTypes
-  C15.ProofsCv C15.ProofsCat C15.ProofsTrans C15.ProofsSummary C15.ProofsLimits.
+  C15.ProofsCv C15.ProofsCat C15.ProofsTrans C15.ProofsSummary C15.ProofsLimits C15.ProofsWf.
 Local Open Scope Z_scope.
 
 (* [meta.unary.cat]: the 14 primary category traits, both compiler configurations *)
@@ -72,9 +72,12 @@ Theorem C15_type_relations : forall t u,
 Proof. intros t u; split; [exact (binary_relations t u) | intros l; exact (contains_m_spec t l)]. Qed.
 Print Assumptions C15_type_relations.
 
-(* the concepts integral, floating_point, signed_integral, unsigned_integral *)
-Theorem C15_concepts : forall k t, wf t = true -> concepts_agree k t.
-Proof. exact concepts. Qed.
+(* the concepts integral, floating_point, signed_integral, unsigned_integral; the etl-only concept
+   `referenceable` is "not void", implied by (and strictly weaker than) [defns.referenceable] *)
+Theorem C15_concepts :
+  (forall k t, wf t = true -> concepts_agree k t)
+  /\ exists t, wf t = true /\ referenceable_c_m t = true /\ referenceable t = false.
+Proof. exact (conj concepts etl_referenceable_is_not_defns_referenceable). Qed.
 Print Assumptions C15_concepts.
 
 (* the language-level cv machinery the traits are specified with maps well-formed types to
@@ -83,6 +86,13 @@ Theorem C15_cv_preserves_wf : forall t c v, wf t = true ->
   wf (qual c v t) = true /\ wf (unqual c v t) = true.
 Proof. intros t c v H; split; [exact (wf_qual t c v H) | exact (wf_unqual t c v H)]. Qed.
 Print Assumptions C15_cv_preserves_wf.
+
+(* every transformation trait maps well-formed types to well-formed types (the substitution-failure
+   cases of add_lvalue_reference / add_rvalue_reference / add_pointer and the qualified-function case
+   of decay are exactly what this needs) *)
+Theorem C15_transformations_preserve_wf : forall k t, wf t = true -> transformations_preserve_wf k t.
+Proof. exact transformations_wf. Qed.
+Print Assumptions C15_transformations_preserve_wf.
 
 (* smallest_size_t<N> (etl extension) for every 64-bit N: the chosen type holds N, and the next
    smaller unsigned type could not hold N + 1 *)
